@@ -2,11 +2,14 @@ package zygo
 
 import (
 	"bytes"
+	"encoding/json"
 	"fmt"
 	"github.com/shurcooL/go-goon"
 	"github.com/ugorji/go/codec"
+	"math"
 	"reflect"
 	"sort"
+	"strconv"
 	"strings"
 	"time"
 	"unsafe"
@@ -106,10 +109,44 @@ func SexpToJson(exp Sexp) string {
 	case *SexpArray:
 		return e.jsonArrayHelper()
 	case *SexpSymbol:
-		return `"` + e.name + `"`
+		return jsonQuote(e.name)
+	case *SexpStr:
+		return jsonQuote(e.S)
+	case *SexpUint64:
+		return strconv.FormatUint(e.Val, 10)
+	case *SexpFloat:
+		if math.IsNaN(e.Val) || math.IsInf(e.Val, 0) {
+			return "null" // JSON has no NaN or infinities
+		}
+		return exp.SexpString(nil)
+	case *SexpSentinel:
+		if e == SexpNull {
+			return "null"
+		}
+		return exp.SexpString(nil)
 	default:
 		return exp.SexpString(nil)
 	}
+}
+
+// jsonQuote renders s as a JSON string literal.
+func jsonQuote(s string) string {
+	by, err := json.Marshal(s)
+	if err != nil {
+		return strconv.Quote(s)
+	}
+	return string(by)
+}
+
+// jsonKeyText gives the text of a hash key, to be used as a JSON object key.
+func jsonKeyText(key Sexp) string {
+	switch k := key.(type) {
+	case *SexpStr:
+		return k.S
+	case *SexpSymbol:
+		return k.name
+	}
+	return key.SexpString(nil)
 }
 
 func (hash *SexpHash) jsonHashHelper() string {
@@ -122,11 +159,11 @@ func (hash *SexpHash) jsonHashHelper() string {
 	}
 
 	for _, key := range hash.KeyOrder {
-		keyst := key.SexpString(nil)
+		keyst := jsonKeyText(key)
 		ko = append(ko, keyst)
 		val, err := hash.HashGet(nil, key)
 		if err == nil {
-			str += `"` + keyst + `":`
+			str += jsonQuote(keyst) + `:`
 			str += string(SexpToJson(val)) + `, `
 		} else {
 			panic(err)
@@ -135,7 +172,7 @@ func (hash *SexpHash) jsonHashHelper() string {
 
 	str += `"zKeyOrder":[`
 	for _, key := range ko {
-		str += `"` + key + `", `
+		str += jsonQuote(key) + `, `
 	}
 	if n > 0 {
 		str = str[:len(str)-2]
